@@ -13,6 +13,7 @@ MANIFEST = {
             "32-bit length limits covered by theorem only.",
     "technique": "Coq proof over translator-regenerated layout tables + differential correspondence (vm_compute)",
 }
+TABLES = [("codec", "GoLayouts.v")]
 PROP_FILE = "Props/P_C12.v"
 TRUSTED = vlib.TRUSTED_COMMON + [
     "tools/xlate codec (go/ast + statement patterns; unmatched syntax -> FUnknown, rejected by wf_layout)",
